@@ -396,6 +396,8 @@ class Ctx:
                 self.assumptions.append(t)
 
     def write_evidence(self, rule, violations=0, explanation=None):
+        if os.environ.get("VERIF_NO_EVIDENCE"):
+            return
         cov = {
             "states": self.states,
             "transitions": self.transitions,
